@@ -349,6 +349,33 @@ func c09PGPFamily(c *Ctx, variant int, perRegion int) c09Fam {
 	s = append(s, tampered...)
 	s = append(s, g, tampered[0], g)
 	f.seqs = append(f.seqs, s)
+	// key blocks that leave something behind in a reader that is reused: a ring of two keys (the second
+	// primary key is pushed back when the first entity ends), a block whose first packet is not a key
+	// (user ID first; a signature first; a v3 key), a block cut inside its second packet - each followed by
+	// an ordinary single key, which must be described as in a fresh process
+	k2 := c09PGPBuild(c, variant+7)
+	ring := add("ring-of-two", append(append([]byte{}, k.stream...), k2.stream...))
+	other := add("genuine-other", k2.stream)
+	var rejected []int
+	for _, rg := range k.regions {
+		if rg.kind == "uid" {
+			// the user ID packet (one header octet pair before its body) moved to the front
+			uid := append([]byte{0xb4, byte(rg.n)}, k.stream[rg.off:rg.off+rg.n]...)
+			rejected = append(rejected, add("uid-first", append(uid, k.stream...)))
+			break
+		}
+	}
+	v3 := append([]byte{}, k.stream...)
+	if len(v3) > 3 {
+		v3[2] = 3 // version octet of the primary key packet (after a 2-octet header) - a v3 key is refused
+		rejected = append(rejected, add("v3-first", v3))
+	}
+	rejected = append(rejected, add("cut-short", append([]byte{}, k.stream[:len(k.stream)*2/3]...)))
+	sq := []int{g, ring, g, other, ring, other, g}
+	for _, r := range rejected {
+		sq = append(sq, r, g, other)
+	}
+	f.seqs = append(f.seqs, sq)
 	return f
 }
 
